@@ -3,7 +3,7 @@ import vlib
 CFG = dict(
     imports=["From Verif.C35 Require Import Model Spec."],
     checker="check_case",
-    n=dict(quick=600, thorough=20000),
+    n=dict(quick=600, thorough=7200),
     rule="op sequences (8-40 ops) on structured masks (empty, single bit, contiguous, alternating, full, calico defaults) "
          "and random 32-bit masks; non-trivial = mask has >=2 bits and the trace contains an allocation past exhaustion "
          "or a number->mark->number round trip; distinct by (mask, ops)",
